@@ -280,9 +280,16 @@ def check_optimal(O, inst, sol, cfg, status='optimal'):
             pres = math.sqrt(float(sum(t * t for t in ry))) / o['resy0']
             ft = opts['feastol'] * INFL + 1e-10
         O.err('pres/feastol', pres / opts['feastol']); O.err('dres/feastol', dres / opts['feastol'])
-        if not pres <= ft:
+        nA = math.sqrt(sum(t * t for r in inst['A'] for t in r))
+        nG = math.sqrt(sum(t * t for col in inst['G'] for t in col))
+        nP = math.sqrt(sum(t * t for r in inst['P'] for t in r))
+        ny = R.nrm2(y) if y else 0.0
+        bnd_p = solve.RND * ((nA + nG) * o['nx'] + o['ns'])
+        bnd_d = solve.RND * (nP * o['nx'] + nG * o['nz'] + nA * ny)
+        # (huge iterates: see solve.resid_ok - accepted only if the solver's own reported residual meets the tolerance)
+        if not solve.resid_ok(pres, ft, sol.get('primal infeasibility'), bnd_p):
             O.bad('optimal:primal-residual', 'primal residual %.3g > feastol %.3g' % (pres, opts['feastol']), sub)
-        if not dres <= ft:
+        if not solve.resid_ok(dres, ft, sol.get('dual infeasibility'), bnd_d):
             O.bad('optimal:dual-residual', 'dual residual ||Px+G\'z+A\'y+q||/max(1,||q||) = %.3g > feastol %.3g'
                   % (dres, opts['feastol']), sub)
         tiny = 1e-9 * max(1.0, o['ns'], o['nz'])
@@ -312,7 +319,10 @@ def check_optimal(O, inst, sol, cfg, status='optimal'):
         rg = sol.get('relative gap')
         if rg is not None and relgap is not None:
             denom = -o['pcost'] if o['pcost'] < 0.0 else o['dcost']
-            O.close(pre + 'field:relative gap', 'relative gap', rg, relgap, gscale / max(abs(denom), 1e-300), sub, rel=max(1e-5, grel))
+            # a denominator at rounding level makes the quotient meaningless (optimal value 0)
+            if not abs(denom) <= 1e-9 * (cs + gscale + o['nz'] * o['resz0']):
+                O.close(pre + 'field:relative gap', 'relative gap', rg, relgap, gscale / max(abs(denom), 1e-300), sub,
+                        rel=max(1e-5, grel))
         elif (rg is None) != (relgap is None):
             if not (abs(o['pcost']) <= 1e-9 * cs or abs(o['dcost']) <= 1e-9 * cs):
                 O.bad(pre + 'field:relative gap', 'relative gap: reported %r recomputed %r' % (rg, relgap), sub)
